@@ -77,12 +77,14 @@ Section Cylinder.
     | Some (t0, t1) => select_hit t0 t1 (cyl_calc c ray) (cyl_miss c)
     end.
   Definition cyl_basic c ray oe de := fst (cyl_basic_tag c ray oe de).
-  (** [debug_assert!(t1.as_float() >= t0.as_float())] *)
+  (** [debug_assert!(!(t1.low < t0.low))] since fix 883f5a7 of the crate (before: [t1.as_float() >= t0.as_float()], the
+      midpoints, which solve_quadratic does not order: a legal ray starting on the surface almost along the axis made
+      debug builds panic -- found by the seed sweep, seed 8 of C13) *)
   Definition cyl_basic_debug_ok (c : Cyl) (ray : Ray K) (o_error d_error : V) : bool :=
     let '(a, b, cc) := cyl_abc c ray o_error d_error in
     match af_solve_quadratic a b cc with
     | None => true
-    | Some (t0, t1) => af_as_float t1 >=? af_as_float t0
+    | Some (t0, t1) => negb (low t1 <? low t0)
     end.
 
   Definition cyl_dpdu (c : Cyl) (phit : V) : V := mkV3 (- cphi_max c * vy phit) (cphi_max c * vx phit) n0.
